@@ -35,8 +35,9 @@ impl SingleQuery {
             format!("?{}", self.var_order.len())
         } else {
             for i in 0..self.var_order.len() {
-                let p = &self.var_order[i].value;
-                if value.eq(p) {
+                let p = &self.var_order[i];
+                //a literal value is not a variable, even when its text is the name of one
+                if !p.internal && value.eq(&p.value) {
                     return format!("?{}", i + 1);
                 }
             }
